@@ -17,7 +17,7 @@ func init() {
 		Run:       runC06,
 		Technique: "runtime conservation/locality checker over generated frame traces: exactly-once, concatenation, context-freedom and all-or-nothing of rtcp.Unmarshal",
 		Rule: "datagrams built as logged sequences of 1..40 reference-encoded frames (all 14 registered types, raw frames with arbitrary unregistered PT/FMT) plus the library's own Marshal output; " +
-			"then every split point between frames, a malformed but well-framed frame and a valid frame damaged until rejected alone (inner lengths/counts, dropped trailing words) inserted at a random position, the tail cut at offsets strictly inside a frame, 1..7 surplus octets that cannot form a packet, the empty datagram, datagrams of 65535..131073 minimal frames (each carrying its index) with and without an unparseable tail, frames with length fields 0x3FFE..0xFFFF, capacity independence of every own decoder (buf[:n] of a larger array vs an exact copy), agreement of CompoundPacket.Unmarshal with rtcp.Unmarshal; " +
+			"then every split point between frames, a malformed but well-framed frame and a valid frame damaged until rejected alone (inner lengths/counts, dropped trailing words) inserted at a random position, the tail cut at offsets strictly inside a frame, 1..7 surplus octets that cannot form a packet, datagrams of frames judged by the library itself (short frames of registered combinations, neighbours filled with the magic words decoders look for), the empty datagram, datagrams of 65535..131073 minimal frames (each carrying its index) with and without an unparseable tail, frames with length fields 0x3FFE..0xFFFF, capacity independence of every own decoder (buf[:n] of a larger array vs an exact copy), agreement of CompoundPacket.Unmarshal with rtcp.Unmarshal; " +
 			"non-trivial = a datagram of at least 2 frames or a fault-injected datagram; distinct by digest of the datagram octets",
 		Assumptions: []string{
 			"a malformed frame is one that is self-delimiting (length field = its size, or bad version) and that rtcp.Unmarshal rejects when given alone; cutting exactly at a frame boundary leaves a valid shorter datagram and is a concatenation case, not a truncation",
@@ -518,6 +518,72 @@ func runC06(c *core.Ctx) {
 			c06Datagram(cs, fs, src)
 		})
 	}
+	// frames judged by the library itself: short frames of registered (PT, FMT) combinations and
+	// neighbours whose words are the magic values decoders look for ("REMB", header words of every
+	// type). Whatever rtcp.Unmarshal accepts alone as exactly one packet is a frame, and for frames
+	// the datagram laws hold whatever the neighbours contain: a decoder that peeks beyond its own
+	// frame finds something that looks right in these datagrams.
+	magic := [][]byte{[]byte("REMB"), {0x8F, 206, 0, 4}, {0x8F, 205, 0, 5}, {0x81, 205, 0, 3}, {0x80, 200, 0, 6}, {0x81, 201, 0, 7}, {0x81, 202, 0, 2}, {0x8B, 205, 0, 3}, {0x80, 207, 0, 2}, {0, 0, 0, 0}, {0xFF, 0xFF, 0xFF, 0xFF}, {0, 1, 0, 0}}
+	c.Section("library-judged", c.N(120000, 6000000), func(cs *core.Case) {
+		r := cs.R
+		candidate := func() []byte {
+			switch r.Intn(4) {
+			case 0: // short frame of a registered combination, length field 0..3 words
+				pc := [][2]byte{{200, 0}, {201, 0}, {202, 0}, {203, 0}, {204, 0}, {205, 1}, {205, 5}, {205, 15}, {205, 11}, {205, 2}, {206, 1}, {206, 2}, {206, 4}, {206, 15}, {207, 0}}[r.Intn(15)]
+				words := r.Intn(4)
+				b := make([]byte, 4+4*words)
+				for w := 1; w <= words; w++ {
+					copy(b[4*w:], magic[r.Intn(len(magic))])
+				}
+				b[0], b[1] = 0x80|pc[1], pc[0]
+				if pc[1] == 0 {
+					b[0] |= byte(r.Intn(3))
+				}
+				gen.FitLength(b)
+				return b
+			case 1, 2: // a frame whose every word is a magic value: RR / APP / BYE / raw
+				words := 1 + r.Intn(8)
+				b := make([]byte, 4+4*words)
+				for w := 1; w <= words; w++ {
+					copy(b[4*w:], magic[r.Intn(len(magic))])
+				}
+				pt := byte(r.Pick(201, 204, 203, 199, 208, 200))
+				cnt := byte(0)
+				if pt == 203 {
+					cnt = byte(words)
+				}
+				if pt == 204 && words < 2 {
+					pt = 201
+				}
+				b[0], b[1] = 0x80|cnt, pt
+				gen.FitLength(b)
+				return b
+			default:
+				if f, ok := genFrame(r, false); ok {
+					return f.b
+				}
+				return []byte{0x80, 201, 0, 1, 'R', 'E', 'M', 'B'}
+			}
+		}
+		var fs []frame
+		for tries := 0; tries < 24 && len(fs) < 2+r.Intn(4); tries++ {
+			b := candidate()
+			ps, err, pan := gUnmarshal(cloneBytes(b))
+			cs.Eval(1)
+			if pan != "" {
+				cs.Fail("panic/rtcp.Unmarshal", core.W{"input_hex": mon.Hex(b, 200), "panic": pan})
+				return
+			}
+			if err == nil && len(ps) == 1 {
+				fs = append(fs, frame{gen.Raw, b, nil})
+			} else {
+				cs.Count("library-judged/candidate-rejected-alone")
+			}
+		}
+		if len(fs) >= 2 {
+			c06Datagram(cs, fs, "library-judged")
+		}
+	})
 	// multi-step: decoding into a CompoundPacket variable that already holds a result
 	c.Section("compound-receiver", c.N(40000, 1500000), func(cs *core.Case) {
 		r := cs.R
